@@ -40,6 +40,10 @@ func C02(r *core.Run) {
 	provNames(r)
 	provRefs(r)
 	importNames(r)
+	topicNames(r)
+	// what is generated for one declared element does not depend on its neighbours
+	iterationIndependence(r, convRel, "*")
+	iterationIndependence(r, walkRel, "*")
 	// every declared kind is handled
 	rules.TypeSwitchCovers(r, convRel, "buildField", schemaPB, "isField_Type", map[string]string{
 		"Field_Array": "arrays are unwrapped by buildProperty, which calls buildField on the item schema (no arrays of arrays in proto3)",
